@@ -29,6 +29,9 @@ func vxH11(nfids int, w int, kind0 int, kind1 int, maxpend int, midframe bool) {
 	if nfids >= 1 {
 		nc.in <- refEncode(Twalk, 1, []refItem{refU32(0), refU32(1), {kind: rkNstr, ss: nil}}, true)
 		vxQuiesce()
+		// ... and moved in place once (newfid == fid), as a client that walks step by step does
+		nc.in <- refEncode(Twalk, 1, []refItem{refU32(1), refU32(1), {kind: rkNstr, ss: nil}}, true)
+		vxQuiesce()
 	}
 	if nfids >= 2 {
 		nc.in <- refEncode(Topen, 1, []refItem{refU32(1), refU8(ORDWR)}, true)
